@@ -428,7 +428,9 @@ class Interval(Duration, Generic[_T]):
         return self.__class__(*copy.deepcopy(self._getstate(), memo))
 
     def __hash__(self) -> int:
-        return hash((self.start, self.end, self._absolute))
+        # An interval also compares equal to the durations and timedeltas of
+        # its length: equal objects must hash alike
+        return timedelta.__hash__(self)
 
     def __eq__(self, other: object) -> bool:
         if isinstance(other, Interval):
